@@ -89,7 +89,23 @@ pub fn write_module(
         // You may think that this is inefficient. It probably is.
         // It's still probably faster than running `rustfmt`.
         match syn::parse_file(&raw_output) {
-            Ok(parsed_file) => prettyplease::unparse(&parsed_file),
+            // prettyplease panics on syntax it cannot print (e.g. a `const X: T;` without a value,
+            // which syn keeps as `Item::Verbatim`); such text can only come from a backend block
+            Ok(parsed_file) => match std::panic::catch_unwind(std::panic::AssertUnwindSafe(|| {
+                prettyplease::unparse(&parsed_file)
+            })) {
+                Ok(formatted) => formatted,
+                Err(_) => {
+                    error = Some(format!(
+                        concat!(
+                            "Could not pretty-print the generated Rust code for {}. The code has been emitted as-is.\n",
+                            "This is most likely due to unsupported syntax in one of your backend definitions."
+                        ),
+                        path.display()
+                    ));
+                    raw_output
+                }
+            },
             Err(err) => {
                 let lc = err.span().start();
                 error = Some(format!(
